@@ -743,5 +743,68 @@ Proof.
   - destruct (pc s) as [| | | | |k| |] eqn:Epc; try destruct k; sleaf.
 Qed.
 
+Lemma step_reqsuspend sid pre post s s' o :
+  Inv s -> step s (EvReqSuspend sid pre post) = (s', o) -> Inv s' \/ OOF s' o.
+Proof.
+  step_intro HI H A1. unfold RE.resumable in H. simp_st. pc_state_cases s A1;
+    rewrite ?Est in H; ev_eqb_in H; repeat (bm_hyp H; simp_st; rewrite ?Est in *; try ev_eqb_in H).
+  all: sleaf.
+Qed.
+
+Theorem step_inv s e s' o :
+  (spurious_permit s e = true -> G) -> Inv s -> step s e = (s', o) -> Inv s' \/ OOF s' o.
+Proof.
+  intros Hsp HI H. destruct e.
+  - eapply step_main; eassumption.
+  - eapply step_maindone; eassumption.
+  - eapply step_permit; eassumption.
+  - eapply task_step_inv; eassumption.
+  - eapply step_reqpause; eassumption.
+  - eapply step_reqabort; eassumption.
+  - eapply step_reqstop; eassumption.
+  - eapply step_reqhalt; eassumption.
+  - eapply step_reqsuspend; eassumption.
+  - eapply step_small; [|eassumption|eassumption]; exact I.
+  - eapply step_small; [|eassumption|eassumption]; exact I.
+  - eapply step_small; [|eassumption|eassumption]; exact I.
+  - eapply step_small; [|eassumption|eassumption]; exact I.
+Qed.
+
+Lemma Inv_init d paus stag rec : Inv (init d paus stag rec).
+Proof.
+  unfold Inv, RE.init, stack_a, R6, PR. simp_st. simp_fn.
+  repeat split; intros; try reflexivity; try discriminate.
+  right. intros [Hx _]. discriminate Hx.
+Qed.
+
 End WithEscape.
+(* ------------------------------------------------------------------ out of fuel is absorbing *)
+Definition oof (s : st) : Prop := pc s = PcNone /\ state s <> Idle.
+
+Ltac oleaf :=
+  norm;
+  repeat match goal with H : RE.req_result _ _ _ _ = _ |- _ => apply req_result_same in H end;
+  frames; unfold oof, samecb, samec, same in *; simp_st; split_ands; rw_proj;
+  split; first [ reflexivity | assumption | congruence | discriminate | exfalso; congruence ].
+
+Lemma step_oof s e : oof s -> oof (fst (step s e)).
+Proof.
+  intros Ho. destruct (step s e) as [s' o] eqn:H. cbn [fst].
+  destruct e; cbn [RE.step] in H.
+  - destruct a; eqb_cases H; repeat (bm_hyp H); oleaf.
+  - oleaf.
+  - oleaf.
+  - unfold RE.task_step in H. destruct Ho as [Hpc Hst]. rewrite Hpc in H. inversion H; subst. split; assumption.
+  - destruct (request_pause s defer) as [[s1 e1] o1] eqn:Erp.
+    apply request_pause_spec in Erp. destruct Erp as [Erp|Erp]; [|unfold pause_acc in Erp];
+      destruct (RE.req_result P D s1 e1) as [s2 o2] eqn:Err; oleaf.
+  - simp_st. eqb_cases H; repeat (bm_hyp H); oleaf.
+  - simp_st. eqb_cases H; repeat (bm_hyp H); oleaf.
+  - simp_st. eqb_cases H; repeat (bm_hyp H); oleaf.
+  - unfold RE.resumable in H. simp_st. repeat (bm_hyp H; simp_st); oleaf.
+  - oleaf.
+  - repeat (bm_hyp H); oleaf.
+  - oleaf.
+  - destruct Ho as [Hpc Hst]. rewrite Hpc in H. inversion H; subst. split; assumption.
+
 End Inv.
